@@ -91,8 +91,18 @@ inline void sample(const std::string& s) { if (nsamples()++ < 12) std::printf("#
 // generation entry point provided by each harness
 void generate(const std::string& tier, uint64_t seed);
 
+extern "C" void __sanitizer_set_death_callback(void (*)(void));
+inline void on_death() {
+  // called by the sanitizer runtime just before it aborts: name the op that was executing
+  std::printf("#CRASH %s\n", current_op().c_str());
+  std::fflush(stdout);
+}
+
 inline int main_(int argc, char** argv) {
   std::string mode = argc > 1 ? argv[1] : "gen";
+#if defined(__SANITIZE_ADDRESS__) || defined(__SANITIZE_THREAD__)
+  __sanitizer_set_death_callback(on_death);
+#endif
   if (mode == "gen") {
     std::string tier = argc > 2 ? argv[2] : "quick";
     uint64_t seed = argc > 3 ? std::strtoull(argv[3], nullptr, 10) : 1;
